@@ -3,7 +3,12 @@
 Correspondence: navis' node table after prune_twigs / prune_by_strahler / prune_at_depth /
 longest_neurite vs the Lean keep-set definitions (integer lengths, incl. exact ties length == size,
 distance == depth).  Oracle: kept nodes' ids, coordinates and mutual parent links untouched;
-connector relocation to the nearest surviving ancestor."""
+connector relocation to the nearest surviving ancestor.
+
+Second pass (harness/c12x.py, driver prefix `c12x.`): the option handling of every function (argument
+forms, cached Strahler column, reroot_soma, from_root, exact=True with masks), NeuronList / inplace /
+method forms, connectors on every stream, the greedy criterion and the drop_fluff criterion as Lean
+checkers evaluated on navis' own output, cell_body_fiber, a sample under the Python back-ends."""
 import warnings, random
 import numpy as np
 import pandas as pd
@@ -15,6 +20,25 @@ from .c10 import parent_map, coords_of, ancestors, add_connectors
 
 navis.config.pbar_hide = True
 navis.set_loggers('ERROR')
+
+
+def mk_neuron(rows, units='1 nm', intcoords=False):
+    """TreeNeuron with a *distinct* small radius per node (so that a radius mix-up is visible)."""
+    df = G.rows_to_df(rows)
+    df['radius'] = [(k % 97 + 1) / 1024.0 for k in range(len(df))]
+    if intcoords:
+        df[['x', 'y', 'z']] = df[['x', 'y', 'z']].astype(np.int64)
+    return navis.TreeNeuron(df, units=units)
+
+
+def cn_pairs(x):
+    if not x.has_connectors:
+        return []
+    return [(int(c), int(n)) for c, n in zip(x.connectors.connector_id.values, x.connectors.node_id.values)]
+
+
+def cn_wire(pairs):
+    return ','.join(f'{c}:{n}' for c, n in pairs) or '-'
 
 
 def kept_untouched(ctx, x, y, case, what, be):
@@ -67,7 +91,7 @@ def twig_signature(pm0, mask, be):
 
 def case_twigs(ctx, case, be=None):
     rows = case['rows']
-    x = G.to_neuron(rows)
+    x = mk_neuron(rows)
     wire = G.wire_neuron(x)
     size, rec, mask = case['size'], case['recursive'], case['mask']
     kw = dict(size=size, recursive=rec, inplace=False)
@@ -91,15 +115,22 @@ def case_twigs(ctx, case, be=None):
     else:
         model = ctx.ask(f'p.twigs {size} {rounds} {mk} | {wire}')
     ctx.count('twigs', f"rec={rec} mask={'y' if mask is not None else 'n'}")
+    sig = None
+    if G.topo_neuron(y) != model:
+        if be in (None, 'fastcore'):
+            sig = X.twig_attribution(ctx, G.topo_neuron(y), model, size, X.rec_wire(rec),
+                                     '-' if mask is None else 'ids:' + ','.join(map(str, mask)), wire, be)
+        else:
+            sig = twig_signature(pm0, mask, be)
     ctx.defn(G.topo_neuron(y), model, f'prune_twigs(size={size}, recursive={rec}, mask={"yes" if mask is not None else "no"}) vs definition [{be}]',
-             case, signature=twig_signature(pm0, mask, be))
+             case, signature=sig)
     kept_untouched(ctx, x, y, case, 'prune_twigs', be)
 
 
 def case_twigs_exact(ctx, case, be=None):
     """exact=True: exactly `size` of cable is removed from every tip (only oracle-level: cable accounting)."""
     rows = case['rows']
-    x = G.to_neuron(rows)
+    x = mk_neuron(rows)
     size = case['size']
     try:
         y = navis.prune_twigs(x, size=size, exact=True, inplace=False)
@@ -164,7 +195,7 @@ def sel_wire(sel):
 
 def case_strahler(ctx, case, be=None):
     rows = case['rows']
-    x = G.to_neuron(rows)
+    x = mk_neuron(rows)
     r = random.Random(case['seed'])
     add_connectors(x, r, rows)
     wire = G.wire_neuron(x)
@@ -178,7 +209,7 @@ def case_strahler(ctx, case, be=None):
                                     inplace=case.get('inplace', False))
         if case.get('inplace'):
             y = x
-            x = G.to_neuron(rows); add_connectors(x, random.Random(case['seed']), rows); x.soma = soma
+            x = mk_neuron(rows); add_connectors(x, random.Random(case['seed']), rows); x.soma = soma
         impl = G.topo_neuron(y) if len(y.nodes) else ''
     except ValueError as e:
         impl = 'ERR'
@@ -215,7 +246,7 @@ def case_strahler(ctx, case, be=None):
 
 def case_depth(ctx, case, be=None):
     rows = case['rows']
-    x = G.to_neuron(rows)
+    x = mk_neuron(rows)
     wire = G.wire_neuron(x)
     src, depth = case['source'], case['depth']
     try:
@@ -231,7 +262,7 @@ def case_depth(ctx, case, be=None):
 
 def case_longest(ctx, case, be=None):
     rows = case['rows']
-    x = G.to_neuron(rows)
+    x = mk_neuron(rows)
     wire = G.wire_neuron(x)
     n, inv = case['n'], case['inverse']
     if isinstance(n, list):
@@ -286,23 +317,81 @@ def gen_cases(ctx, nf=None):
         yield ('depth', dict(rows=rows, source=r.choice(ids + [None]), depth=r.choice([0, 1, 3, 5, 7, 9, 12, 16, 22, 30]), meta=meta))
         if sum(1 for p in pm.values() if p < 0) >= 1 and len(ids) > 1:
             yield ('longest', dict(rows=rows, n=r.choice([1, 2, 3, [1, None], [0, 2], [1, 3]]), inverse=r.random() < 0.3, meta=meta))
+        # second pass: option handling (thinned when another property re-runs this stream under its own budget)
+        yield from X.gen_ext(ctx, r, rows, meta, k, thin=1 if ctx.prop == 'C12' else 6)
 
 
 RUNNERS = {'twigs': case_twigs, 'twigs_exact': case_twigs_exact, 'strahler': case_strahler, 'depth': case_depth, 'longest': case_longest}
+from . import c12x as X  # noqa: E402  (second pass: option handling, NeuronList / inplace / method forms, checkers)
+RUNNERS.update(X.RUNNERS)
+
+
+def _tagged(kind, f):
+    """Every failure must carry what is needed to replay it: the case handed to the runner names its stream and back-end."""
+    def g(ctx, case, be=None):
+        c = dict(case, kind=kind, stream='c12')
+        if be is not None:
+            c['be'] = be
+        try:
+            return f(ctx, c, be)
+        except Exception as e:
+            # on the unchanged tree no runner raises (every navis call that may legitimately raise is guarded where it is
+            # made); an exception that escapes means navis left an object in a state the follow-up calls choke on
+            from .common import Timeout
+            if isinstance(e, Timeout):
+                raise
+            ctx.oracle(False, f'{kind}: navis raised {type(e).__name__}: {str(e)[:120]} in a call that must not fail '
+                              f'(input mutated / result unusable) [{be}]', c)
+    return g
+
+
+RUNNERS = {k: _tagged(k, f) for k, f in RUNNERS.items()}
+
+
+BE_KINDS = ('twigs', 'twigs_x', 'depth', 'depth_x', 'longest_x', 'strahler_x')
 
 
 def run(ctx, be=None):
-    ctx.extra['rule'] = ('forests from harness/gen.py with integer edge lengths; a case = (forest, pruning function, parameters); sizes and '
-                         'depths are drawn from attainable integer path sums so that exact ties (length == size, distance == depth) occur; '
-                         'non-trivial when ≥ 3 nodes')
+    ctx.extra['rule'] = ('forests from harness/gen.py with integer edge lengths (13 shapes × 6 labelings × 3 row orders), distinct radius per node; '
+                         'a case = (forest, pruning function, argument forms, entry form); sizes and depths are drawn from attainable integer path '
+                         'sums so that exact ties (length == size, distance == depth, edge == remainder) occur. Second pass (kinds *_x, fluff, cbf): '
+                         'size/depth as number | float | unit string (1/2/4/125 nm neurons), mask as id list | id array | bool array | bool list | '
+                         'callable, recursive ∈ {False, True, 0..3, -1, inf} incl. balanced trees where every round strips one level, exact=True with '
+                         'masks / integer-dtype coordinates, to_prune as ±int | list (incl. 0, negatives) | range with step | slice with ±step, cached '
+                         'strahler_index column (fresh | stale) × force_strahler_update, reroot_soma, relocate_connectors, source id | None | absent, '
+                         'negative depth, n as int (incl. < 1) | slice with negative bounds / step, from_root=False, inverse; every function called as '
+                         'function | inplace=True | TreeNeuron method (both inplace values) | on a NeuronList of two (per-neuron source); connectors on '
+                         'every stream; a sample of the stream re-run under the igraph and networkx back-ends; non-trivial when ≥ 3 nodes')
+    ctx.notes.append('a disagreement under navis-fastcore with a mask is attributed to the two open mask findings only when navis\' result equals '
+                     'the fastcore variant of the model (twigDeleteFC) round by round; exact=True + mask only when it equals the as-written variant '
+                     '(exactPruneAW); from_root=False under fastcore only when the determined wrong start reproduces the result')
     for kind, case in gen_cases(ctx):
         ctx.case(dict(case, kind=kind), nontrivial=len(case['rows']) >= 3)
         m = case['meta']
         ctx.count('shape', m['shape']); ctx.count('labeling', m['labeling']); ctx.count('kind', kind)
         RUNNERS[kind](ctx, case, be)
+    if be is None and ctx.prop == 'C12':
+        # the Python fall-backs of the anchored functions (no navis-fastcore; igraph / networkx graphs) are navis code
+        # too: a sample of the stream is re-run under each of them against the same definitions
+        from .backends import backend, available
+        for b in [x for x in available() if x != 'fastcore']:
+            with backend(b):
+                for kind, case in gen_cases(ctx, ctx.budget(24, 300)):
+                    if kind not in BE_KINDS:
+                        continue
+                    ctx.case(dict(case, kind=kind, be=b), nontrivial=len(case['rows']) >= 3)
+                    ctx.count('backend', f'{b}:{kind}')
+                    RUNNERS[kind](ctx, case, b)
 
 
 def replay(ctx, rp):
     case = rp['case']
     ctx.case(case)
-    RUNNERS[case['kind']](ctx, {k: v for k, v in case.items() if k != 'kind'}, case.get('be'))
+    be = case.get('be')
+    args = {k: v for k, v in case.items() if k not in ('kind', 'be', 'stream')}
+    if be in ('igraph', 'networkx', 'fastcore'):
+        from .backends import backend
+        with backend(be):
+            RUNNERS[case['kind']](ctx, args, be)
+    else:
+        RUNNERS[case['kind']](ctx, args, be)
